@@ -127,11 +127,39 @@ def run(ctx):
                             % [cc.line for cc in bad], f.loc())
             else:
                 R.ok('a', 'R2', inst2, '%d update site(s)' % len(uses), f.loc())
+            # ... nor any other selection state: the removal lists are written by the contest, and an unverified challenger that books an
+            # index on the incumbent's removal list leaves that index covered by nobody (seed C02-4: verification made lazy, after the contest)
+            MAPUPD = ('std::collections::btree::map::BTreeMap::insert', 'std::collections::btree::map::BTreeMap::entry', 'std::collections::btree::map::BTreeMap::remove',
+                      'std::collections::btree::map::BTreeMap::get_mut', 'std::collections::hash::map::HashMap::insert', 'std::collections::hash::map::HashMap::entry',
+                      'std::collections::hash::map::HashMap::remove', 'std::collections::hash::map::HashMap::get_mut')
+            upd = [cc for cc in body.calls() if any(glob_match(q, n) for q in MAPUPD for n in cc.names())]
+            bad2 = [cc for cc in upd if cc.bb in reach2]
+            inst3 = 'select_valid_signatures_for_k_indices: no selection state (index map, removal lists) is written for an unverified signature'
+            if bad2 or not upd:
+                R.violation('a', 'R2', inst3, 'select:verified-before-bookkeeping', 'map updates at line %s reachable without a successful verify of the signature being processed'
+                            % sorted({cc.line for cc in bad2}), f.loc())
+            else:
+                R.ok('a', 'R2', inst3, '%d update site(s)' % len(upd), f.loc())
         # arguments of the per-signature verification
         ctx.arg_origin('a', SELECT, SVERIFY, 2, require=['p#3', 'call:*get_verification_key_for_concatenation'], desc='(vk) <- sig.reg_party')
         ctx.arg_origin('a', SELECT, SVERIFY, 3, require=['p#3', 'call:*::get_stake'], desc='(stake) <- sig.reg_party')
         ctx.arg_origin('a', SELECT, SVERIFY, 5, require=['p#2'], forbid=['p#3*'], desc='(msg) <- msg')
         ctx.arg_origin('a', SELECT, SVERIFY, 4, require=['p#4'], forbid=['p#3*'], desc='(avk) <- avk')
+
+    # ---- (b) the error that the aggregator maps to "no certificate yet" is raised only where the quorum was actually counted
+    # (seed C02-5: mithril-common raised it from the informational won_indexes lists of the messages, before the aggregation)
+    AERR = 'mithril_stm::protocol::aggregate_signature::error::AggregationError'
+    try:
+        adt = ctx.ws.adt(AERR)
+        vi = [i for i, v in enumerate(adt['variants']) if v['n'] == 'NotEnoughSignatures'][0]
+        ctx.only_constructors('b', AERR, [('mithril_stm::proof_system::concatenation::clerk::ConcatenationClerk::select_valid_signatures_for_k_indices*', 'the quorum routine (count of selected indices < k)'),
+                                          ('mithril_stm::proof_system::concatenation::proof::ConcatenationProof::preliminary_verify*', 'verification side: fewer than k indices in the aggregate'),
+                                          ('mithril_stm::proof_system::halo2_snark::*', 'SNARK proof system (not in this build)'),
+                                          ('<' + AERR + ' as *', 'derives')],
+                              'AggregationError::NotEnoughSignatures is raised only where the indices were counted', variant=vi,
+                              key='constructs:AggregationError::NotEnoughSignatures')
+    except Exception as e:  # noqa
+        R.missing('b', e)
 
     # ---- (e)
     if f is not None:
